@@ -108,7 +108,13 @@ func c13TreeTerm(g *c13Gen, t c13Tree) string {
 	}
 	var xs []string
 	for _, p := range t.paths() {
+		if t[p] < 0 {
+			continue // a gitlink (submodule entry): not a file, never indexed without Options.Submodules
+		}
 		xs = append(xs, cTuple(cN(uint64(g.pid[p])), cN(uint64(t[p]))))
+	}
+	if len(xs) == 0 {
+		return "(@nil (N * N))"
 	}
 	return cList(xs)
 }
@@ -137,10 +143,32 @@ func c13Mutate(g *c13Gen, trees []c13Tree, hist [][]c13Tree, classes map[string]
 	for e := 0; e < ne; e++ {
 		b := r.Intn(nb)
 		t := trees[b]
-		switch r.Intn(10) {
+		kindOfEdit := r.Intn(11)
+		if r.Chance(15) {
+			// replace a submodule entry by a file again
+			for _, p := range t.paths() {
+				if t[p] < 0 {
+					t[p] = newContent()
+					classes["gitlink-to-file"] = true
+					kindOfEdit = -1
+					break
+				}
+			}
+		}
+		switch kindOfEdit {
+		case 10: // a submodule entry (gitlink) at a path: replaces a file there, may later be replaced by a file again
+			p := r.Pick(c13Paths)
+			if v, ok := t[p]; ok && v > 0 {
+				classes["file-to-gitlink"] = true
+			} else {
+				classes["add-gitlink"] = true
+			}
+			t[p] = -(1 + r.Intn(3))
 		case 0, 1: // add / modify
 			p := r.Pick(c13Paths)
-			if _, ok := t[p]; ok {
+			if v, ok := t[p]; ok && v < 0 {
+				classes["gitlink-to-file"] = true
+			} else if ok {
 				classes["modify"] = true
 			} else {
 				classes["add"] = true
@@ -285,6 +313,10 @@ func TestVerifC13(t *testing.T) {
 				}
 				fi.WriteString("deleteall\n")
 				for _, p := range trees[i].paths() {
+					if v := trees[i][p]; v < 0 {
+						fmt.Fprintf(&fi, "M 160000 %040x %s\n", -v, p)
+						continue
+					}
 					c := g.contents[trees[i][p]-1]
 					fmt.Fprintf(&fi, "M 100644 inline %s\ndata %d\n%s\n", p, len(c), c)
 				}
@@ -361,6 +393,9 @@ func TestVerifC13(t *testing.T) {
 					}
 					tab := strings.IndexByte(l, '\t')
 					f := strings.Fields(l[:tab])
+					if f[1] != "blob" {
+						continue // gitlink
+					}
 					want[l[tab+1:]] = f[2]
 				}
 				res, err := ss.Search(context.Background(), &query.Branch{Pattern: name, Exact: true}, &zoekt.SearchOptions{Whole: true})
